@@ -82,7 +82,13 @@ func propC26(c *Check) {
 			case Param("snapshots")(ed), PhiNamed("fresh")(ed):
 			case Call("builtin:append", PhiNamed("fresh"), Has(Path(Param("snapshots"), "[]")))(ed):
 			default:
-				if _, isSlice := ed.(*ssa.Slice); isSlice { // make([]T, 0)
+				if sl, isSlice := ed.(*ssa.Slice); isSlice { // make([]T, 0) = slice of a fresh local array
+					if _, isAlloc := sl.X.(*ssa.Alloc); isAlloc {
+						continue
+					}
+					// a re-slice of the submitted list shares its backing array: appending to it
+					// overwrites the list that the checkpoint is about to record
+					okf = false
 					continue
 				}
 				if _, isMk := ed.(*ssa.MakeSlice); isMk {
@@ -92,7 +98,7 @@ func propC26(c *Check) {
 			}
 		}
 	}
-	c.Require(okf && nphi >= 2, "provenance", clo+"|fresh sources", "fresh is the submitted list (new round) or the filtered subset of it (replay); nothing else flows into it", "another value flows into fresh")
+	c.Require(okf && nphi >= 2, "provenance", clo+"|fresh sources", "fresh is the submitted list (new round) or a filtered subset built in its own fresh storage (replay); nothing else flows into it and the replay subset never shares the backing array of the submitted list", "another value flows into fresh, or the replay subset aliases the submitted list")
 
 	// credit map built from fresh
 	build := c.RangeLoop(f, "credit build#1/1", PhiNamed("fresh"))
